@@ -13,7 +13,7 @@ import numpy as np
 
 from ..core import Violation, feqv, short
 
-RUNS = {"quick": 6000, "thorough": 400000}
+RUNS = {"quick": 10000, "thorough": 400000}
 SELFCHECK = {"quick": 32, "thorough": 64}
 CHUNK = 250
 LEVEL = "exploration"
